@@ -182,6 +182,25 @@ def natural_loops(fn):
     return out
 
 
+def every_cycle_passes(fn, bb):
+    """the innermost natural loop containing block bb cannot go round (head -> ... -> head) without passing bb: what happens in
+    bb happens once per iteration"""
+    inner = [(h, body) for (h, body, backs) in natural_loops(fn) if bb in body]
+    if not inner:
+        return False
+    h, body = min(inner, key=lambda x: len(x[1]))
+    seen, st = set(), [sx for sx in fn.succ(h) if sx in body]
+    while st:
+        x = st.pop()
+        if x == h:
+            return False
+        if x in seen or x == bb or x not in body:
+            continue
+        seen.add(x)
+        st += [sx for sx in fn.succ(x) if sx in body]
+    return True
+
+
 def hand_written_loops(fn):
     """natural loops that are neither await polling loops, nor macro generated, nor driven by an iterator"""
     out = []
